@@ -645,12 +645,23 @@ func (ndb *nodeDB) DeleteVersionsFrom(fromVersion int64) error {
 		newFormatFrom = legacyLatestVersion + 1
 	}
 	for version := latest; version >= newFormatFrom; version-- {
-		ndb.resetLatestVersion(version - 1)
+		// (lowered as soon as the first entry of the version - its root - is queued for deletion,
+		// not earlier: a call that fails before it could delete anything must leave the version in
+		// the range, or a repeated call would take the rollback for done)
+		lowered := false
 		if err = ndb.traverseRange(nodeKeyPrefixFormat.KeyInt64(version), nodeKeyPrefixFormat.KeyInt64(version+1), func(k, _ []byte) error {
-			return ndb.batch.Delete(k)
+			if err := ndb.batch.Delete(k); err != nil {
+				return err
+			}
+			if !lowered {
+				ndb.resetLatestVersion(version - 1)
+				lowered = true
+			}
+			return nil
 		}); err != nil {
 			return err
 		}
+		ndb.resetLatestVersion(version - 1)
 	}
 
 	// Delete the legacy versions
@@ -675,11 +686,11 @@ func (ndb *nodeDB) DeleteVersionsFrom(fromVersion int64) error {
 			if i > 0 {
 				legacyRootKeyFormat.Scan(roots[i-1].key, &below)
 			}
-			ndb.resetLatestVersion(below)
 			// delete the legacy root
 			if err := ndb.batch.Delete(roots[i].key); err != nil {
 				return err
 			}
+			ndb.resetLatestVersion(below)
 			// delete the legacy nodes (an empty root value is the empty tree: nothing to delete)
 			// it will skip the orphans because orphans will be removed at once in `deleteLegacyVersions`
 			if len(roots[i].root) > 0 {
